@@ -7,8 +7,8 @@ V = Path(__file__).resolve().parent.parent
 for rf in sorted(glob.glob('/tmp/seedres/C*-*m*.json')):
     name = Path(rf).stem            # C01-m1
     pid, mk = name.split('-')
-    if mk.startswith('r2'):
-        src = Path(f'/tmp/seed2-{pid}/{mk[2:]}')
+    if mk.startswith('r') and mk[1].isdigit():
+        src = Path(f'/tmp/seed{mk[1]}-{pid}/{mk[2:]}')
     else:
         src = Path(f'/tmp/seed-{pid}/{mk}')
     if not src.exists():
